@@ -72,9 +72,13 @@ let blkrb toks =
       Buffer.add_string buf (Printf.sprintf "%d:%s%s%s%s " n (b c) (b x) (b u) (show_ranges !r)))
     toks;
   Buffer.add_string buf "A=";
-  for t = 0 to !mx + 3 do
+  for t = 0 to min (!mx + 3) 40 do
     Buffer.add_string buf (if blk_check_all_in !r (z_of_int t) then "1" else "0")
   done;
+  if !mx + 3 > 40 then
+    for t = !mx - 1 to !mx + 3 do
+      Buffer.add_string buf (if blk_check_all_in !r (z_of_int t) then "1" else "0")
+    done;
   Buffer.contents buf
 
 let () =
@@ -131,7 +135,7 @@ let blkrecv toks =
       let body = body_of blen (int_of_string seed) in
       let junk _ = z_of_int (-1) in
       (* b1: the reassembly core of the server; b2: the client's ETag check around its core *)
-      let st = ref None and cst = ref { cr_etag = None; cr_st = None } in
+      let st = ref None and cst = ref { cr_etag = None; cr_st = None; cr_restart = false } in
       let step a etag =
         if dir = "b1" then begin
           let (st', o) = blk_srv_step junk (zi mx) !st a in st := st'; o
@@ -140,7 +144,7 @@ let blkrecv toks =
         end in
       let buf = Buffer.create 64 in
       List.iter (fun t ->
-          if t = "R" then begin st := None; cst := { cr_etag = None; cr_st = None } end
+          if t = "R" then begin st := None; cst := { cr_etag = None; cr_st = None; cr_restart = false } end
           else begin
             let ((n, m, s, sz, pl, ph), etag) = parse_blk_e t in
             if not (consistent body blen (n, m, s, sz, pl, ph)) then Buffer.add_string buf "X"
@@ -176,7 +180,7 @@ let blkpeer toks =
         | Some b -> b
         | None -> let b = body_of blen (int_of_string seed + t) in Hashtbl.add bodies t b; b in
       let junk _ = z_of_int (-1) in
-      let tab = ref [] and cst = ref { cr_etag = None; cr_st = None } in
+      let tab = ref [] and cst = ref { cr_etag = None; cr_st = None; cr_restart = false } in
       let show t o =
         match o with
         | BoDeliver d ->
